@@ -94,6 +94,7 @@ pub fn run(tier: Tier) -> i32 {
     if tier == Tier::Quick {
         // en-passant positions with one enemy slider anywhere, with every reply applied
         plan.families.push((Box::new(crate::universe::PawnMovesFirst(crate::universe::EpFamily { extra: crate::universe::Extra::EnemySlider, pre_push: false })), 1));
+        plan.families.push((Box::new(crate::universe::PawnMovesFirst(crate::universe::EpTwoFamily { extra: crate::universe::Extra::EnemySlider, pre_push: false })), 1));
     }
     plan.closures.push(krk_closure());
     if tier == Tier::Thorough {
